@@ -30,6 +30,22 @@ type tcase struct {
 	root  bool
 }
 
+// heldAtDual: writers A=0, B=1, C=2 on one leaf {10,20,30,40}. C commits (A, begun earlier, conflicts and
+// refetches, reaching its DualLock holding nothing); B takes the node lock and parks before the named call of its
+// commitUpdatedNodes / phase 2; A calls DualLock (refused); B finishes; A goes round again and commits.
+func heldAtDual(name, call string, occ int, adds bool) tcase {
+	a := []occ4.Op{{Kind: "upd", Key: 10, Val: 110}}
+	b := []occ4.Op{{Kind: "upd", Key: 20, Val: 220}}
+	if adds {
+		a = add(11)
+		b = add(12)
+	}
+	sc := occ4.Scenario{Slot: 8, Init: [][]occ4.Op{add(10, 20, 30, 40)},
+		Writers:  []occ4.WriterSpec{{Ops: a}, {Ops: b}, {Ops: add(5)}},
+		SubGates: []occ4.SubGate{{Writer: 1, Name: call, Occ: occ}}}
+	return tcase{name, sc, []int{0, 2, 2, 2, 0, 0, 0, 0, 1, 1, 1, 0, 1, 0, 0, 0, 0}, false}
+}
+
 func directed() []tcase {
 	return []tcase{
 		// the plain merge path: two writers on an empty store, no race: the second merges into the new root
@@ -41,6 +57,13 @@ func directed() []tcase {
 		// a refused node lock, then refetch: the writer's own lock records (remove, update) are still published
 		{"refused-lock", occ4.Scenario{Slot: 8, Init: [][]occ4.Op{add(10, 20, 30, 40)}, Writers: []occ4.WriterSpec{
 			{Ops: []occ4.Op{{Kind: "rm", Key: 10}, {Kind: "upd", Key: 20, Val: 99}}}, {Ops: add(2)}}}, []int{1, 1, 0, 0, 1, 0, 0, 0, 0}, false},
+		// A stands before its post-refetch DualLock while B HOLDS the node lock (B parked inside its commit, after
+		// Lock+IsLocked): the refused DualLock must send A round the loop again, B finishes, then A merges and commits.
+		// C caused A's first-round conflict; A, B, C work on different items of the same node.
+		heldAtDual("held-at-dual/before-registry-get", "reg.Get", 1, false),
+		heldAtDual("held-at-dual/before-reserving-update", "reg.UpdateNoLocks", 1, false),
+		heldAtDual("held-at-dual/before-flip", "reg.UpdateNoLocks", 2, false),
+		heldAtDual("held-at-dual/adds-before-reserving-update", "reg.UpdateNoLocks", 1, true),
 		// the first-root race: both looked the root handle up before either registered it
 		{"root-race", occ4.Scenario{Slot: 8, Writers: []occ4.WriterSpec{{Ops: add(1, 2)}, {Ops: add(7)}}, Gates: []string{"blob.Add"}, Deadline: 1500 * time.Millisecond},
 			[]int{1, 0, 0, 1}, true},
